@@ -1,5 +1,7 @@
 """C18 wildcard patterns, range expressions, index lists, bead selection:
 library monitor under ASan/UBSan. See DESIGN.md §5 C18."""
+import shutil
+
 import vfcore as vf
 
 RULE = ("wildcmp: every (pattern, string) pair with patterns over {a,b,*,?} "
@@ -26,7 +28,14 @@ RULE = ("wildcmp: every (pattern, string) pair with patterns over {a,b,*,?} "
         "IndexParser: vector->string->vector and "
         "string->vector against direct enumeration. BeadList::Generate: "
         "random topologies, type and name: patterns against the reference "
-        "matcher. Non-trivial: pattern with a wildcard; accepted range "
+        "matcher; second bead family: type and bead names that contain "
+        "'*' and '?' themselves (C5*, O5*, C?, A*B, ...), topologies with "
+        "an empty type registry, with every type registered, and built by "
+        "the real gro / pdb / xml topology readers from generated files; "
+        "selections equal to a type of the topology (incl. wildcard "
+        "types), prefixes, ordinary globs, by type and name:, for Generate "
+        "and GenerateInSphericalSubvolume (open and orthorhombic box). "
+        "Non-trivial: pattern with a wildcard; accepted range "
         "expression; index set with >= 3 members; selection matching some "
         "but not all beads. distinct = hash of the input text.")
 
@@ -47,12 +56,17 @@ def run(chk):
             "--range-multi", str(vf.tier_n(chk.tier, 1500, 6000)),
             "--index", str(vf.tier_n(chk.tier, 3000, 20000)),
             "--beadlist", str(vf.tier_n(chk.tier, 500, 3000))]
+    wd = vf.scratch_dir("C18")   # generated .gro/.pdb/.xml topologies
+    args += ["--tmpdir", wd]
     jobs = [lambda s=s: vf.run_proc(
         [h, "--seed", str(chk.seed), "--shard", str(s), "--shards",
          str(shards)] + args, env=env, timeout=3000) for s in range(shards)]
-    for s, res in enumerate(vf.run_parallel(jobs)):
-        if not chk.ingest(res, "c18 shard %d" % s):
-            chk.sanitizer["reports"] += 0 if res.rc == 0 else 1
+    try:
+        for s, res in enumerate(vf.run_parallel(jobs)):
+            if not chk.ingest(res, "c18 shard %d" % s):
+                chk.sanitizer["reports"] += 0 if res.rc == 0 else 1
+    finally:
+        shutil.rmtree(wd, ignore_errors=True)
     chk.extra["exhaustive_subspaces"] = {
         "wildcmp_pattern_maxlen": plen, "wildcmp_string_maxlen": slen,
         "range_window": "[-6,6]^3"}
